@@ -3,6 +3,7 @@
 //     vrt.MapSeq (so the harness owns map iteration order), and
 //   - in the parser/domain/service packages, goroutines, channel operations and the sync
 //     primitives are routed through the vrt cooperative scheduler.
+//
 // The vrt runtime itself is added to the klog module as a virtual package.
 // Because the rewrite is mechanical and re-derived at check time, an edited parallel.go or
 // style.go is instrumented as edited.
@@ -34,10 +35,10 @@ const (
 )
 
 type report struct {
-	Mode          string   `json:"mode"`
-	MapRanges     []string `json:"map_ranges"`
-	Concurrency   []string `json:"concurrency_sites"`
-	Unsupported   []string `json:"unsupported"`
+	Mode           string   `json:"mode"`
+	MapRanges      []string `json:"map_ranges"`
+	Concurrency    []string `json:"concurrency_sites"`
+	Unsupported    []string `json:"unsupported"`
 	FilesRewritten []string `json:"files_rewritten"`
 }
 
